@@ -12,7 +12,7 @@ use refimpl as r;
 use refimpl::{Mode, MODES};
 use serde_json::json;
 
-const RULE: &str = "for honest keys and signed (M, ctx, mode): (1) every other split i != |ctx|, i <= 255, of the concatenation ctx||M into (ctx', M') must be rejected in the same mode; (1b) every single-byte change of the context (all positions), the context truncated/extended by one byte, message bytes changed/extended/truncated must be rejected; (2) cross-mode mimicry, including every split of ctx||OID||PH(M) under pure verify and pure signatures over splits shifted by up to two bytes under hash_verify: the pure signature of OID||PH(M) (also with domain and length bytes prepended) must be rejected by hash_verify(M, PH), and a pre-hash signature must be rejected by pure verify of OID||PH(M) and of the literal formatted bytes; (3) every other pre-hash function (incl. SHA-256 vs SHAKE128 which share the digest length) and the other mode must reject; the original must verify. The reference is run on every alternative as well (it must also say false). Non-trivial = distinct alternative interpretations evaluated against a signature that verifies under its own interpretation.";
+const RULE: &str = "for honest keys and signed (M, ctx, mode): (1) every other split i != |ctx|, i <= 255, of the concatenation ctx||M into (ctx', M') must be rejected in the same mode; (1b) every single-byte change of the context (all positions), the context truncated/extended by one byte, message bytes changed/extended/truncated must be rejected; (2) cross-mode mimicry, including every split of ctx||OID||PH(M) under pure verify and pure signatures over splits shifted by up to two bytes under hash_verify: the pure signature of OID||PH(M) (also with domain and length bytes prepended) must be rejected by hash_verify(M, PH), and a pre-hash signature must be rejected by pure verify of OID||PH(M) and of the literal formatted bytes; (4) for messages just past 4 KiB .. 1 MiB: a changed byte at the start, middle, end and on both sides of every power-of-two offset, truncation to every power of two, by one byte, and extensions must be rejected; (3) every other pre-hash function (incl. SHA-256 vs SHAKE128 which share the digest length) and the other mode must reject; the original must verify. The reference is run on every alternative as well (it must also say false). Non-trivial = distinct alternative interpretations evaluated against a signature that verifies under its own interpretation.";
 
 pub fn run(ctx: &Ctx) -> StageOut {
     let mut acc = Acc::new();
@@ -143,6 +143,52 @@ fn run_set<S: PS>(ctx: &Ctx) -> Acc {
             if acc.samples.len() < 3 {
                 acc.sample(json!({"set": p.name, "signed": {"mode": mode.name(), "ctx": hex_short(&cx), "message": hex_short(&m)},
                     "alternatives": {"splits": max_i + 1 - usize::from(cx.len() <= max_i), "other_modes": 3}, "sig": hex_short(&sig)}));
+            }
+        }
+        // ---- (4) long messages: every part of a long message is bound ---------------------------
+        let long = gen::long_message_lengths(&mut g);
+        if ji < long.len() {
+            let ml = long[ji];
+            for mode in MODES {
+                let m = g.bytes(ml);
+                let cl = *g.pick(&[0usize, 7, 255]);
+                let cx = gen::context(&mut g, cl);
+                let rnd = g.arr32();
+                let Ok((Ok(sig), _)) = sign_replay::<S>(&sk, &m, &cx, mode, &rnd) else {
+                    acc.inconclusive("honest sign of a long message failed (see C01)".into());
+                    continue;
+                };
+                if !matches!(guarded(|| S::verify(&pk, &m, &sig, &cx, mode)), Ok(true)) {
+                    acc.violation(&format!("C06|original-rejected|{}|{}", p.name, mode.name()), "signature over a long message does not verify under its own interpretation (see C01)".into(), json!({"kind":"c01","set":S::SET}));
+                    continue;
+                }
+                acc.count("long_originals_verified", 1);
+                // positions: the last byte, the first byte, and the bytes on both sides of every power-of-two
+                // boundary inside the message
+                let mut poss = vec![0usize, ml - 1, ml / 2];
+                let mut b = 64usize;
+                while b < ml {
+                    poss.push(b - 1);
+                    poss.push(b);
+                    b *= 2;
+                }
+                for pos in poss {
+                    let mut m2 = m.clone();
+                    m2[pos] ^= 0x40;
+                    alt::<S>(&mut acc, &pk, &pk_b, "long-msg-byte-changed", &m2, &cx, mode, &sig, pos + 1 == ml);
+                }
+                // truncations to every power of two below the length, by one byte, and extensions
+                let mut b = 4096usize;
+                while b < ml {
+                    alt::<S>(&mut acc, &pk, &pk_b, "long-msg-truncated-to-boundary", &m[..b], &cx, mode, &sig, false);
+                    b *= 2;
+                }
+                alt::<S>(&mut acc, &pk, &pk_b, "long-msg-truncated", &m[..ml - 1], &cx, mode, &sig, true);
+                let mut m2 = m.clone();
+                m2.push(0);
+                alt::<S>(&mut acc, &pk, &pk_b, "long-msg-extended", &m2, &cx, mode, &sig, true);
+                m2.extend_from_slice(&g.bytes(5000));
+                alt::<S>(&mut acc, &pk, &pk_b, "long-msg-extended", &m2, &cx, mode, &sig, false);
             }
         }
         // ---- (2) cross-mode mimicry ----------------------------------------------------------
